@@ -36,6 +36,7 @@ structure MMX where
   cname : Nat → Str
   feats : Nat → List FInfo     -- eAllStructuralFeatures of a class, in order
   ws : Char → Bool             -- str.isspace
+  idText : Str → Str := fun s => s   -- the token text of an id attribute's stored text (JSON atoms carry a kind tag)
 
 def MMX.find (mm : MMX) (c : Nat) (n : Str) : Option FInfo := (mm.feats c).find? fun f => f.name == n
 def MMX.cidOf (mm : MMX) (n : Str) : Option Nat := (List.range mm.nCls).find? fun c => mm.cname c == n
@@ -103,7 +104,8 @@ def textElem (f : Str) (s : Str) : Elem := .mk f none none false [] (if s.isEmpt
 
 /-! ## save -/
 
-def zeroF (s : Str) : Bool := s == "0.0".toList || s == "-0.0".toList
+def zeroF (s : Str) : Bool :=
+  s == "0.0".toList || s == "-0.0".toList || s == "n0.0".toList || s == "n-0.0".toList   -- (JSON atoms carry a kind tag)
 
 /-- Python's `value != default_value` on the texts: equal texts, or the two zeros of a float type -/
 def veq (fi : FInfo) (v : Str) : Bool :=
@@ -302,9 +304,9 @@ def idValue {ρ : Type} (mm : MMX) (n : SNode ρ) : Option Str :=
   match (mm.feats n.cls).find? fun fi => fi.isId && fi.kind = .attr with
   | Option.none => Option.none
   | some fi => match n.slots.lookup fi.name with
-    | some (.attr1 v) => some v
+    | some (.attr1 v) => some (mm.idText v)
     | some _ => Option.none
-    | Option.none => fi.dflt
+    | Option.none => fi.dflt.map mm.idText
 
 /-- `Resource._is_reference_token` -/
 def isTok (ws : Char → Bool) (s : Str) : Bool :=
